@@ -1863,3 +1863,15 @@ func checkRapidUsesEnvironmentThroughItsDoors(c *report.Ctx) {
 	}
 	c.Check("R-WHO", "L/rapid/environment-through-its-doors", "package rapid calls the environment's two init stores and two exec-environment builders and no other method of it", len(bad) == 0 && n >= 3, pos, n, "Environment method calls in package rapid: %d; others than the four: %v", n, uniq(bad))
 }
+
+// rules that reported a round-11 seed through a sibling property only
+func init() {
+	add := func(id string, fs ...func(*report.Ctx)) { round5Rules[id] = append(round5Rules[id], fs...) }
+	add("C05", checkIDAndDeadline)
+	add("C06", checkTeardownWheneverAgentsExist)
+	add("C07", checkReadyCountAlwaysSet)
+	add("C15", checkAgentErrorTypeNonEmpty)
+	add("C17", checkReplySinkGuards)
+	add("C18", checkInitGateArrivals, checkSanitiserCoverage)
+	add("C19", checkSingleAcquisition)
+}
